@@ -43,6 +43,8 @@ class Amorph(Indicator):
             if not name.startswith("_") and value:
                 output[name] = deepcopy(value)
 
+        output.update(deepcopy(self._analysis_kwargs))
+
         return output
 
     @staticmethod
